@@ -556,6 +556,8 @@ def _run_continuum(case):
                 far = G.choose_strays(mask, cx.X, [], how_many=1)
                 variants.append((sel + "_stray", np.concatenate([nodes, far])))
                 variants.append(("single_node", nodes[:1]))
+                # a selection listing a node twice (union of two selections sharing a corner): the total is still the entered total
+                variants.append((sel + "_repeated", np.concatenate([nodes, nodes[: max(1, nodes.size // 3)]])))
             for sname, nn in variants:
                 for form in ("const", "const_int"):
                     totals = CONSTS[form][: len(unknowns)]
